@@ -16,11 +16,13 @@ import (
 	"verifharness/geometry"
 	"verifharness/metadata"
 	"verifharness/piecestore"
+	"verifharness/trackerb"
 	"verifharness/wire"
 )
 
 var bindings = map[string]func(in []byte) any{
 	"piecestore": piecestore.Replay,
+	"tracker":    trackerb.Handle,
 	"geometry":   geometry.Handle,
 	"metadata":   metadata.Replay,
 	"wire":       wire.Handle,
